@@ -5,46 +5,87 @@ Stream c01-front (harness/c01_front.go) holds, per case, the compiled SOURCE JSO
 passes (`emitted` note) and, per document (`jsfc12` rows), the verdicts of the reference validator on the source schema
 (`src=`) and on the emitted schema (`remit=`).  The driver verb `jsfc12` (lean/Cog/Drv/FrontEmitDrv.lean) evaluates on the
 same case the hypotheses and the conclusion of C12_jsonschema_source_validates_emitted_partial (Props/C12.lean) and the
-model-side verdicts.  checks/c12.py calls `run(c)` and turns the result into obligations."""
+model-side verdicts.  Stream c01-front-oa / verb `oafc12`: the same for OpenAPI sources (source validator: kin-openapi's
+VisitJSON; C12_openapi_source_validates_emitted_partial).  checks/c12.py calls `run(c)` and turns the result into obligations."""
 import collections
+import json
 import re
 from verifkit.core import *
 from verifkit import front_keeps
 
 WITNESS = ("pinnullreq", '(o ("x" null))')
+# stream → (definition verb, tie verb, number of words before the document, suffix of lab case ids)
+STREAMS = {"c01-front": ("jsfdef", "jsfc12", 3, "js"), "c01-front-oa": ("oafdef", "oafc12", 4, "oa")}
 
 
-def run(c, only=None, seed=None, docs=None, faults=None):
+def _walk(x):
+    if isinstance(x, dict):
+        yield x
+        for v in x.values():
+            yield from _walk(v)
+    elif isinstance(x, list):
+        for v in x:
+            yield from _walk(v)
+
+
+def diagnose(source_text, emitted_text):
+    """case-level facts a known finding may name: bounds of integer schemas that int64() cannot represent"""
+    overflow = frac = False
+    try:
+        nodes = [n for n in _walk(json.loads(source_text)) if n.get("type") == "integer"]
+    except (ValueError, AttributeError):
+        nodes = []
+    for n in nodes:
+        for k in ("minimum", "maximum"):
+            b = n.get(k)
+            if isinstance(b, (int, float)) and not isinstance(b, bool):
+                overflow |= float(b) >= 2.0 ** 63 or float(b) < -2.0 ** 63
+                frac |= float(b) != int(b)
+    overflow = overflow and re.search(r'"(maximum|minimum|exclusiveMaximum|exclusiveMinimum)":-9223372036854775808', emitted_text) is not None
+    return "int-bound-overflow=%s fractional-integer-bound=%s" % ("yes" if overflow else "no", "yes" if frac else "no")
+
+
+def load_proposed(c):
+    """entries of checks/c12.front_emit.proposed_findings.json that known_findings.json does not hold yet"""
+    path = os.path.join(VERIF, "checks", "c12.front_emit.proposed_findings.json")
+    have = {f["id"] for f in c.known}
+    for f in json.load(open(path)).get("findings", []):
+        if f["id"] not in have and f.get("property") == c.pid:
+            c.known.append(f)
+
+
+def run(c, only=None, seed=None, docs=None, faults=None, stream="c01-front"):
     """returns (Counter, failures: dict kind -> list of payload dicts, witness_ok: bool, error text or None);
        `only` = one case id (replay): lab case f<i>js is regenerated from its index, other ids are pinned / testdata cases"""
     hb, err = build_go("verifharness", "harness", files=front_keeps.FILES, tag=front_keeps.TAG())
     if hb is None:
         return {}, {}, False, "harness build failed: " + err[-1500:]
+    vdef, vtie, nwords, suffix = STREAMS[stream]
     quick = c.tier == "quick"
     n, docs0, faults0 = (150, 8, 4) if quick else (1200, 10, 6)
     docs, faults, seed = docs or docs0, faults or faults0, seed or c.seed
     extra = {}
     if only is not None:
-        m = re.match(r"f(\d+)js$", only)
+        m = re.match(r"f(\d+)%s$" % suffix, only)
         extra, n = ({"from": int(m.group(1)), "pinned": 0, "testdata": 0}, 1) if m else ({}, 0)
     try:
-        rows = harness(hb, "c01-front", n=n, docs=docs, faults=faults, seed=seed, timeout=3600, **extra)
+        rows = harness(hb, stream, n=n, docs=docs, faults=faults, seed=seed, timeout=3600, **extra)
         if only is not None:
             rows = [r for r in rows if (r[0] == "-" and only in r[1].split(" ")[1:3]) or (r[0] != "-" and r[0].split(" ")[1] in (only, only + ".fe"))]
     except (RuntimeError, subprocess.TimeoutExpired) as e:
-        return {}, {}, False, "c01-front stream failed: " + str(e)[-1500:]
-    keep = [r for r in rows if r[0] != "-" and r[0].split(" ")[0] in ("jsfdef", "defschemas", "jsfc12")]
+        return {}, {}, False, stream + " stream failed: " + str(e)[-1500:]
+    keep = [r for r in rows if r[0] != "-" and r[0].split(" ")[0] in (vdef, "defschemas", vtie)]
     notes = collections.defaultdict(dict)
     for r in rows:
         if r[0] == "-":
             w = r[1].split(" ", 2)
             if w[0] in ("schema", "emitted", "emitted-err") and len(w) == 3:
-                notes[w[1]][w[0]] = w[2][:8000]
+                notes[w[1]][w[0]] = w[2]
     replies = drv([r[0] for r in keep])
     st, bad, witness_ok = collections.Counter(), collections.defaultdict(list), False
     for r, m in zip(keep, replies):
         verb, cid = r[0].split(" ")[0], r[0].split(" ")[1]
-        if verb != "jsfc12":
+        if verb != vtie:
             if m != "ok":
                 st["bad_replies"] += 1
             continue
@@ -53,14 +94,15 @@ def run(c, only=None, seed=None, docs=None, faults=None):
             continue
         d = dict(x.split("=", 1) for x in m.split(" "))
         real = dict(x.split("=", 1) for x in r[1].split(" "))
-        doc = r[0].split(" ", 3)[3]
+        doc = r[0].split(" ", nwords)[nwords]
         st["documents"] += 1
 
         def payload(kind, broken):
-            return {"kind": kind, "broken": broken, "stream": "c01-front", "case": cid, "document": doc[:4000], "real": r[1], "driver": m,
-                    "source_schema": notes[cid].get("schema", ""), "emitted_schema": notes[cid].get("emitted", notes[cid].get("emitted-err", "")),
-                    "replay_args": {"only": cid, "seed": seed, "docs": docs, "faults": faults},
-                    "how_to_replay": "./check C12 --replay <this file>  (harness c01-front seed=%d docs=%d faults=%d, case %s)" % (seed, docs, faults, cid)}
+            return {"kind": kind, "broken": broken, "stream": stream, "case": cid, "document": doc[:4000], "real": r[1], "driver": m,
+                    "source_schema": notes[cid].get("schema", "")[:8000], "emitted_schema": notes[cid].get("emitted", notes[cid].get("emitted-err", ""))[:8000],
+                    "case_text": "front-emit stream=%s kind=%s %s" % (stream, kind, diagnose(notes[cid].get("schema", ""), notes[cid].get("emitted", ""))),
+                    "replay_args": {"only": cid, "seed": seed, "docs": docs, "faults": faults, "stream": stream},
+                    "how_to_replay": "./check C12 --replay <this file>  (harness %s seed=%d docs=%d faults=%d, case %s)" % (stream, seed, docs, faults, cid)}
         # instance of the theorem on the real front-end IR (pass models, emitter model, codec model)
         if d["inst"] == "true":
             st["inst"] += 1
@@ -114,12 +156,16 @@ def run(c, only=None, seed=None, docs=None, faults=None):
                 else:
                     bad["forward"].append(payload("source-valid-document-rejected-by-emitted-schema",
                                                   "FragJS case, document valid against the SOURCE schema, no null member, `sat` holds: the schema the real jenny emitted rejects it"))
-        if real["remit"] == "true":
+        if real["remit"] == "true" and d.get("widened") == "true":
+            # a closed object without properties is read as `any` by the front-end: the emitted schema is laxer by construction
+            st["backward_skipped_closed_empty_object"] += 1
+            st["backward_skipped_closed_empty_object_laxer"] += real["src"] == "false"
+        elif real["remit"] == "true":
             st["backward"] += 1
             if real["src"] == "true":
                 st["backward_ok"] += 1
             else:
                 bad["backward"].append(payload("emitted-schema-accepts-what-source-rejects",
                                                "FragJS case: the schema the real jenny emitted accepts a document the SOURCE schema rejects"))
-    c.count("c01-front/emit", len(keep), [r[0] for r in keep if r[0].startswith("jsfc12")][:2000])
+    c.count(stream + "/emit", len(keep), [r[0] for r in keep if r[0].startswith(vtie)][:2000])
     return st, bad, witness_ok, None
